@@ -77,18 +77,26 @@ def gateStep (allowText dropUnsupported : Bool) : DocM Unit :=
     if !viol.isEmpty then fail .valueError else pure ()
 
 /-- the closing loop of `topicosvg`: prune, drop orphaned gradients, flatten underfull groups, round; repeated
-    while a round pruned something.  `fuel` bounds the number of rounds (each non-final round removes a shape,
-    so #shapes + 1 rounds always suffice); running out is a RecursionError like every other fuelled loop. -/
+    while a round removed a shape or a group.  `fuel` bounds the number of rounds (each non-final round removes one,
+    so #shapes + #groups + 1 rounds always suffice); running out is a RecursionError like every other fuelled loop. -/
+def pruneCensus : DocM (Nat × Nat) := do
+  let l ← elements
+  let root ← getRoot
+  pure ((l.map (·.2.length)).sum, (root.elems.filter (fun n => n.tag == Node.svgTag "g")).length)
+
 def pruneLoop (ndigits : Int) : Nat → DocM Unit
   | 0 => fail .recursionError
   | fuel + 1 => do
-    let before ← elements
+    let before ← pruneCensus
     removeUnpaintedShapes
     removeOrphansAfterPruning
     flattenGroups
     roundFloats ndigits
-    let after ← elements
-    if (after.map (·.2.length)).sum == (before.map (·.2.length)).sum then pure () else pruneLoop ndigits fuel
+    let after ← pruneCensus
+    if after == before then pure () else pruneLoop ndigits fuel
+
+/-- rounds that always suffice: every round but the last removes a shape or a group -/
+def pruneFuel : DocM Nat := pruneCensus >>= fun c => pure (c.1 + c.2 + 2)
 
 /-- everything `topicosvg` does before the gate -/
 def convertSteps (ndigits : Int) (noneGood : Bool) : DocM Unit := do
@@ -108,8 +116,8 @@ def convertSteps (ndigits : Int) (noneGood : Bool) : DocM Unit := do
   absolute
   roundFloats ndigits
   removeEmptySubpaths
-  let l ← elements
-  pruneLoop ndigits (l.length + 2)
+  let f ← pruneFuel
+  pruneLoop ndigits f
 
 /-- `topicosvg(ndigits, inplace=True, allow_text, drop_unsupported)`; ValueError when the gate
     reports violations -/
@@ -117,7 +125,7 @@ def topicosvg (ndigits : Int) (allowText dropUnsupported noneGood : Bool) : DocM
   convertSteps ndigits noneGood >>= fun _ => gateStep allowText dropUnsupported >>= fun _ =>
     -- the elements the gate dropped may have been the only users of a gradient, or have left a group underfull:
     -- the closing loop runs once more
-    if dropUnsupported then (elements >>= fun l => pruneLoop ndigits (l.length + 2)) else pure ()
+    if dropUnsupported then (pruneFuel >>= fun f => pruneLoop ndigits f) else pure ()
 
 /-- `set_attributes(name_values)` with the default xpath `/svg:svg`: flush, then assign on the root -/
 def setRootAttributes (kvs : List (String × String)) : DocM Unit := do
